@@ -114,6 +114,13 @@ class C13(Campaign):
                     styles.append("mixin")
                 op["style"] = rnd.choice(styles)
             out.append(op)
+        if len(prog["events"]) >= 2 and rnd.random() < 0.3:
+            # two different events with the same human-readable name (identity of an event is its id)
+            a, b = rnd.sample(prog["events"], 2)
+            prog["event_names"] = {a: "Same label", b: "Same label"}
+            for t in prog["trans"]:
+                if t.get("assign") in (a, b):
+                    del t["assign"]
         sc["ops"] = out
         n = len(out)
         for c in sc["gv"]:
